@@ -7,8 +7,10 @@ fn mapf(x: u8) -> u8 { x }
 fn ffrom(x: u8) -> u8 { x }
 fn ftry(x: u8) -> Result<u8, Infallible> { Ok(x) }
 #[derive(Deserr)]
-#[deserr(rename_all = camelCase, error = deserr::errors::JsonError, tag = "t", deny_unknown_fields, from(u8) = mk_from)]
-struct T { a: u8 }
-fn mk_from(x: u8) -> T { T { a: x } }
-fn mk_try(x: u8) -> Result<T, Infallible> { Ok(T { a: x }) }
+#[deserr(error = JsonError)]
+struct T {
+#[deserr(rename = "x", default, missing_field_error = mfe, error = deserr::errors::JsonError, map = mapf)]
+#[deserr(default)]
+    a: u8,
+}
 fn main() {}
